@@ -7,6 +7,7 @@ import io
 import os
 import shutil
 import sys
+import tarfile
 import tempfile
 from pathlib import Path
 
@@ -71,7 +72,7 @@ def strategy_(draw, tier):
                                              "envelope-decrypt", "cli", "cli-existing-output", "cli-wrong-key", "vmtar-list", "vmtar-extract", "keystore",
                                              "vmtar-modes", "vhdx-abs-parent", "hyperv-dirty", "rw-handles", "envelope-decrypt-big", "cli-big",
                                              "cli-output-dir", "cli-output-evidence-dir", "cli-relative-output", "hyperv-fileobject",
-                                             "vmdk-rw-descriptor-handle"]),
+                                             "vmdk-rw-descriptor-handle", "vmtar-empty"]),
                             min_size=2, max_size=10))
         return {"workload": w, "ops": ops, "n": draw(st.integers(0, 1 << 20))}
     mod = importlib.import_module(f"hv.props.{w.lower()}")
@@ -106,6 +107,12 @@ def manifest(root):
 def scratch_dir():
     root = os.environ.get("VERIF_SCRATCH") or ("/dev/shm" if os.path.isdir("/dev/shm") else None)
     return tempfile.mkdtemp(prefix="c09-", dir=root)
+
+
+def gzip_of_nothing() -> bytes:
+    import gzip
+
+    return gzip.compress(b"", 6, mtime=0)
 
 
 def build_evidence(d, n):
@@ -188,6 +195,11 @@ def build_evidence(d, n):
     with open(os.path.join(d, "esx", "s.v00"), "wb") as f:
         f.write(raw)
     info["vmtar"] = os.path.join(d, "esx", "s.v00")
+    # zero-length placeholders (and a gzip of nothing) where an archive is expected
+    for nm, content in (("empty.v00", b""), ("empty.vgz", gzip_of_nothing())):
+        with open(os.path.join(d, "esx", nm), "wb") as f:
+            f.write(content)
+    info["vmtar-empty"] = [os.path.join(d, "esx", "empty.v00"), os.path.join(d, "esx", "empty.vgz")]
     import gzip
 
     with open(os.path.join(d, "esx", "s.vgz"), "wb") as f:
@@ -299,6 +311,20 @@ def run_scenario(spec, out):
                         with open(allowed, "rb") as f:
                             if f.read() != info["payload_big"]:
                                 raise AssertionError("CLI output differs from the payload (> 4 MiB)")
+                    elif op == "vmtar-empty":
+                        for pth in info["vmtar-empty"]:
+                            for how in ("name", "handle", "rw-handle"):
+                                try:
+                                    if how == "name":
+                                        t = vmtar.open(pth)
+                                    else:
+                                        fh_ = open(pth, "rb" if how == "handle" else "r+b")
+                                        opened.append(fh_)
+                                        t = vmtar.open(fileobj=fh_)
+                                    t.getmembers()
+                                    t.close()
+                                except (tarfile.TarError, OSError, EOFError):
+                                    pass  # refusing an empty file is fine; touching it is not
                     elif op == "cli-relative-output":
                         # a relative -o is relative to the working directory, wherever the envelope lives
                         here = os.getcwd()
